@@ -342,8 +342,8 @@ pub fn subs() -> Vec<Box<dyn Sub>> {
             name: "custom-family",
             rule: "27 harness-defined tag types with truthful BASE_SIZE/dst_len (sized with 0..=6 extra words; DST tails with element sizes 1,2,3,4,8,24 behind fixed parts of 8..=24 bytes, alignment-compatible combinations) with custom IDs, viewed through BootInformation::get_tag and DynSizedStructure::cast. Enumerated completely: every type x every tag size 8..=96 (thorough 160); generated: sizes up to 1024. Oracle: panic, or a view at the tag's address with size_of_val == r8(tag size) whose last field byte aliases the tag; an exactly fitting size must be accepted. Non-trivial = exact fit, or a sized type at a non-matching size; distinct by (type, size)",
             profiles: Profiles::Both,
-            quick: 2000,
-            thorough: 50000,
+            quick: 20000,
+            thorough: 300000,
             strategy,
             enumerate: Some(enumerate),
             enum_exhaustive: false,
@@ -353,8 +353,8 @@ pub fn subs() -> Vec<Box<dyn Sub>> {
             name: "builtin-kinds",
             rule: "all 22 built-in kinds as stand-alone marker-filled tags at a PROT_NONE page: every tag size 8..=96 (thorough 160; VBE also 760..=808), generated sizes up to 1024. Oracle: the typed view is a panic or spans exactly (0, r8(size)); sizes the model accepts must be accepted. Every case is non-trivial; distinct by (kind, size)",
             profiles: Profiles::Both,
-            quick: 1500,
-            thorough: 50000,
+            quick: 5000,
+            thorough: 100000,
             strategy: strategy_builtin,
             enumerate: Some(enumerate_builtin),
             enum_exhaustive: false,
